@@ -112,6 +112,9 @@ impl Stats {
 /// watchdog report what was already found when a later family does not finish
 pub static FOUND: Mutex<Vec<Violation>> = Mutex::new(Vec::new());
 pub static WATCHDOG_CTX: Mutex<Option<(String, u64, String)>> = Mutex::new(None);
+/// failing cases seen by a worker that is still shrinking them (not yet minimal): reported by the
+/// watchdog when shrinking does not finish in time (a hanging engine makes every attempt slow)
+pub static FOUND_EARLY: Mutex<Vec<Violation>> = Mutex::new(Vec::new());
 
 fn write_replay(out_dir: &str, property: &str, seed: u64, tier: &str, v: &Violation) -> String {
     let body = json!({"property": property, "family": v.family, "case": v.case, "message": v.message, "seed": seed, "tier": tier});
@@ -126,7 +129,10 @@ fn write_replay(out_dir: &str, property: &str, seed: u64, tier: &str, v: &Violat
 /// otherwise exit 2 (inconclusive)
 pub fn watchdog_fire(limit: u64) -> ! {
     let out_dir = std::env::var("VERIF_OUT_DIR").unwrap_or_else(|_| VERIF_DIR.to_string());
-    let found: Vec<Violation> = FOUND.lock().map(|g| g.clone()).unwrap_or_default();
+    let mut found: Vec<Violation> = FOUND.lock().map(|g| g.clone()).unwrap_or_default();
+    if found.is_empty() {
+        found = FOUND_EARLY.lock().map(|g| g.clone()).unwrap_or_default().into_iter().filter(|v| !v.message.starts_with("HARNESS:")).collect();
+    }
     let ctx = WATCHDOG_CTX.lock().ok().and_then(|g| g.clone());
     if let (Some((prop, seed, tier)), false) = (ctx, found.is_empty()) {
         for v in found.iter().take(20) {
@@ -466,6 +472,11 @@ where
                         Ok(()) => Ok(()),
                         Err(m) => {
                             st.freeze();
+                            if let Ok(mut g) = FOUND_EARLY.lock() {
+                                if g.len() < 40 {
+                                    g.push(Violation { family: family.clone(), case: to_case(&v), message: format!("{} (case not minimised: the run was cut off while shrinking)", m) });
+                                }
+                            }
                             Err(TestCaseError::fail(m))
                         }
                     }
